@@ -113,6 +113,63 @@ def check_backward(ctx: Ctx, P):
         ctx.violation(f"_get_leaf_tensors returns {impl}, BFS model returns {bfs}", rp, no_input=True)
 
 
+def check_inplace_history(ctx: Ctx, P):
+    """the graph under a tensor OBJECT is not immutable: after `y.mul_(q)` / `y.add_(q)` the same Python object has a
+    new grad_fn and depends on one more leaf.  History: defaulted backward on y (retained graph), in-place edit of y
+    by a fresh leaf q, defaulted backward on y again; a twin graph gets the same history with explicit inputs."""
+    rng = ctx.rng
+    cands = differentiable_nonleaves(P)
+    y = rng.choice(cands)
+    shape = P.nodes[y].shape
+    m = numel(shape)
+    agg1 = ("const", [rng.randint(-5, 7) for _ in range(m)])
+    agg2 = ("const", [rng.randint(-5, 7) for _ in range(m)])
+    qv = [float(rng.randint(-3, 4)) for _ in range(m)]
+    kind = rng.choice(["mul_", "add_", "sub_"])
+    q_rg = rng.random() < 0.8
+    report = P.leaves()
+    pre = rand_pre(rng, P, P.leaves())
+    base = sorted(P.reach_leaves([y]))
+
+    def run(explicit):
+        ts = P.build(torch.float64)
+        set_pre(P, ts, pre, torch.float64)
+        q = torch.tensor(qv, dtype=torch.float64).reshape(shape).requires_grad_(q_rg)
+        errs = []
+        try:
+            backward([ts[y]], make_agg(agg1, torch.float64), retain_graph=True,
+                     **({"inputs": [ts[i] for i in base]} if explicit else {}))
+            errs.append(None)
+        except Exception as e:  # noqa: BLE001
+            errs.append(classify_exc(e))
+        try:
+            getattr(ts[y], kind)(q)
+        except Exception as e:  # noqa: BLE001   (e.g. an in-place edit of a view autograd forbids: same on both twins)
+            return ("inplace-refused", classify_exc(e)), None, None
+        try:
+            backward([ts[y]], make_agg(agg2, torch.float64),
+                     **({"inputs": [ts[i] for i in base] + ([q] if q_rg else [])} if explicit else {}))
+            errs.append(None)
+        except Exception as e:  # noqa: BLE001
+            errs.append(classify_exc(e))
+        qg = None if q.grad is None else [float(x) for x in q.grad.reshape(-1).tolist()]
+        return errs, grads_of(ts, report), qg
+
+    e1, g1, q1 = run(False)
+    e2, g2, q2 = run(True)
+    ctx.count("inplace_history", kind if g1 is not None else "refused by autograd")
+    if g1 is None or g2 is None:
+        return
+    ctx.case(("inplace", tuple(P.describe()), y, kind, q_rg), nontrivial=True)
+    if e1 != e2 or g1 != g2 or q1 != q2:
+        ctx.violation(f"history backward(y) ; y.{kind}(q) ; backward(y) with defaulted inputs leaves {fmt_grads(g1)}, q.grad={q1} "
+                      f"(errors {e1}); with inputs = the leaves y is computed from at each call ({base}, then + q) it leaves "
+                      f"{fmt_grads(g2)}, q.grad={q2} (errors {e2})",
+                      {"api": "backward", "history": f"backward(n{y}) ; n{y}.{kind}(q) ; backward(n{y})", "program": P.describe(),
+                       "prog_sx": sx(P.to_sx()), "q": qv, "q_requires_grad": q_rg, "default": fmt_grads(g1), "explicit": fmt_grads(g2),
+                       "q_grad_default": q1, "q_grad_explicit": q2})
+
+
 def check_mtl(ctx: Ctx, M):
     rng, P = ctx.rng, M.P
     if rng.random() < 0.15:
@@ -176,6 +233,8 @@ def main(ctx: Ctx):
     for i in range(n):
         check_backward(ctx, random_program(ctx.rng, p_norg=0.25))
         check_mtl(ctx, random_mtl(ctx.rng, heads_disjoint=(i % 2 == 0)))
+        if i % 3 == 0:
+            check_inplace_history(ctx, random_program(ctx.rng, p_norg=0.25))
         if i % 5 == 0:
             check_mtl(ctx, sibling_mtl(ctx.rng))
     return ctx.finish(
@@ -183,5 +242,6 @@ def main(ctx: Ctx):
              "multi-output split/unbind, leaves reached both through and around the features); the real autograd graph "
              "is extracted (nodes, next_functions with output numbers) and handed to the Lean BFS / tensor-level "
              "reachability; defaulted call vs explicit call with the predicted sets on a twin graph: .grad of all "
-             "leaves equal / both rejected; _get_leaf_tensors vs Lean BFS model as diagnostic tie",
+             "leaves equal / both rejected; histories with an in-place edit of the differentiated tensor by a fresh leaf "
+             "between two defaulted calls; _get_leaf_tensors vs Lean BFS model as diagnostic tie",
         trusted=TRUSTED)
